@@ -21,10 +21,15 @@ Policies (Model/TranslatePolicy.lean), section P below:
   translateUnsat  ↔ `Concrete::translate_unsatisfiable_pk`
   polForEachKey / polForAnyKey / polKeys ↔ `ForEachKey for Policy` (both types), `Concrete::keys`
 
-All theorems are for EVERY miniscript `ms` / policy `p` (no bound on size, depth, width).
+Descriptors (Model/TranslateDesc.lean over the shapes of Model/Descriptor.lean), section D:
+  descTranslate ↔ `Descriptor::translate_pk` through Bare / Pkh / Wpkh / Wsh / Sh / Tr
+  Desc.iterPk   ↔ `Descriptor::iter_pk` (src/descriptor/iter.rs, the `PkIter` state machine)
+
+All theorems are for EVERY miniscript `ms` / policy `p` / descriptor `d` (no bound on size, depth, width).
 -/
 import MsVerif.Lemmas.TranslateEncode
 import MsVerif.Lemmas.TranslatePolicy
+import MsVerif.Lemmas.TranslateDesc
 
 namespace MsVerif.C20
 open MsVerif MsVerif.TreeWalk MsVerif.CmpEq MsVerif.TranslateLemmas MsVerif.TranslateEncode
@@ -296,5 +301,49 @@ example : polKeys wp = [0, 1, 2, 0] := by decide
 example : polForEachKey (fun k => k != 2) wp = ([0, 1, 2], false) := by decide
 
 end Policies
+
+/-! ## D — descriptors -/
+
+section Descriptors
+open MsVerif.Desc MsVerif.TranslateDesc
+
+/-- D1: for a pure total mapping `Descriptor::translate_pk` returns the descriptor with the
+atoms substituted iff every rebuilt miniscript node passes `from_ast` in its context and every
+key held directly by a wrapper (`pkh`, `wpkh`, `sh(wpkh)`, the internal key of `tr`) passes
+`Ctx::check_pk` — and `OuterError` otherwise: an illegal target is always refused, a legal one
+never -/
+theorem desc_translate_pure (f : Key → Key) (g : HashKind → Nat → Nat) (chk : Ctx → Ms → Bool)
+    (keyOk : Ctx → Key → Bool) (d : Desc) :
+    descTranslate (pureT (σ := σ) (ε := ε) f g) chk keyOk d =
+      if (d.mapKeys f g).legal chk keyOk then pure (d.mapKeys f g) else throw .outerError := by
+  rw [descTranslate_pure]; rfl
+
+/-- D2: the output script of the key-substituted descriptor is the output script of the
+original computed with every atom serialised as its image — for every wrapper (`bare`, `pkh`,
+`wpkh`, `wsh`, `sh(..)`, and `tr` given the same output-key function of the mapped internal
+key and the leaf scripts) -/
+theorem desc_script_translate (P : Params) (f : Key → Key) (g : HashKind → Nat → Nat) (d : Desc) :
+    (d.mapKeys f g).scriptPubkey P = d.scriptPubkey (Params.comap P f g) :=
+  scriptPubkey_mapKeys P f g d
+
+/-- D2 for the leaf scripts of `tr` -/
+theorem desc_leaf_scripts_translate (P : Params) (f : Key → Key) (g : HashKind → Nat → Nat)
+    (leaves : List (Nat × Ms)) :
+    trLeafScripts P (leaves.map fun l => (l.1, l.2.mapKeys f g))
+      = trLeafScripts (Params.comap P f g) leaves := leafScripts_mapKeys P f g leaves
+
+/-- D3: `Descriptor::iter_pk` (single key, tap leaves in order, then the miniscript iterator)
+yields exactly the keys of the printed form in order, with multiplicity — for every descriptor
+type (`tr`: internal key first; `sortedmulti` / `multi_a` keys as written) -/
+theorem desc_iter_pk_eq_keys (d : Desc) : d.iterPk = d.keysPrinted := TranslateDesc.iterPk_eq d
+
+/-- the translated descriptor has the substituted key list -/
+theorem desc_keys_translate (f : Key → Key) (g : HashKind → Nat → Nat) (d : Desc) :
+    (d.mapKeys f g).iterPk = d.iterPk.map f := by
+  rw [desc_iter_pk_eq_keys, desc_iter_pk_eq_keys, keysPrinted_mapKeys]
+
+example : (Desc.tr 7 [(1, pk 0), (1, .multiA 1 [3, 2])]).iterPk = [7, 0, 3, 2] := by decide
+
+end Descriptors
 
 end MsVerif.C20
